@@ -152,12 +152,17 @@ def check(ctx):
             mask = ("call", ("g", "numpy.any"), (cmp_("!=", ec, c(0)),), (("axis", c(0)),))
             want_tr = ("proj", ("call", ("g", "numpy.where"), (mask,), ()), 0)
             full = ("slice", c(None), c(None), c(None))
+            want_cls = ("call", ("a", ("a", SELF, "kernel_classes"), "map"),
+                        (("lambda", ("d",), ("s", n("d"), name_t)),), ())
             ok = (ident == name_t and transition == want_tr and codes_t is not None
+                  and cls_ == want_cls
                   and codes_t[0] == "s" and codes_t[2] == ("tuple", (full, mask))
                   and any(x == ec for x in subterms(codes_t[1])))
             detail = f"transition={short(transition or (), 100)} codes={short(codes_t or (), 100)}"
     ctx.ob("C19.R2", gel, "per kernel: mask = any(code != 0 over chains); transition = "
-                          "where(mask); error_codes = code[:, mask] (same mask)", ok,
+                          "where(mask); error_codes = code[:, mask] (same mask); the class "
+                          "(for the messages) is looked up under the same kernel identifier",
+           ok,
            detail=detail, stmt="error log mask " + detail[:160])
     post = [t for t, _, cond in rg.calls if t[1][0] == "a" and t[1][2] == "combine_filtered"
             and any(a == n("posterior_only") and p for a, p in cond)]
